@@ -342,6 +342,15 @@ def lawsOk (t : Tab) : Bool :=
     | none => true
     | some s => okStr s && t.date.all fun f => f.1 = e.1 || f.2 ≠ some s
 
+/-- the real RFC 3339 implementation (`Model/DSCodec.lean`, the one `date_codec_roundtrip_of_calendar` is
+    about) against what `plist::Date::to_xml_format` printed for every date of the line, both directions -/
+def dateImplOk (t : Tab) : Bool :=
+  t.date.all fun e =>
+    let d : Date := ⟨e.1.1, e.1.2⟩
+    rfc3339Show d == e.2 && (match e.2 with
+      | some s => rfc3339Read s == some d
+      | none => true)
+
 def dedup (xs : List String) : List String :=
   xs.foldl (fun acc x => if acc.contains x then acc else acc ++ [x]) []
 
@@ -393,6 +402,7 @@ def runSave (inp obs : List String) : Verdict :=
       (if d.lib != .nil then ["doc-lib"] else []) ++ kinds ++ xmlFeats ++
       (if fBlank then ["lib-edge-blank"] else []) ++ (if fDate then ["date-range"] else []) ++
       (if !lawsOk tab then ["codec-law-broken"] else []) ++
+      (if !dateImplOk tab then ["date-impl-differs"] else []) ++
       (if Spec.XmlSafe d != xmlFeats.isEmpty then ["xmlsafe-definitions-differ"] else []) ++ ["nt"]
     -- model
     let mt := toTree c d
@@ -427,7 +437,7 @@ def runSave (inp obs : List String) : Verdict :=
         let loadAgree := match iload with
           | some (l, _) => decide (l = mload)
           | none => false
-        let agree := outName mt == "ok" && treeAgree && loadAgree && lawsOk tab && Spec.XmlSafe d == xmlFeats.isEmpty
+        let agree := outName mt == "ok" && treeAgree && loadAgree && lawsOk tab && dateImplOk tab && Spec.XmlSafe d == xmlFeats.isEmpty
         -- oracle on the implementation's own output
         let rt : List String :=
           if !wf then [] else
